@@ -4,7 +4,8 @@
 
    Quantification: every termination delay, EVERY process behaviour (exits by
    itself at any time or never; reacts to its input closing after any delay or
-   never; reacts to SIGTERM after any delay or never), every lateness of the
+   never; reacts to SIGTERM after any delay or never; leaves a descendant
+   behind that keeps its standard error open, or not), every lateness of the
    three timers and every resolution of exit/timer ties in the selects.
    Assumed (explicit): the process does die of SIGKILL ([p_kill p <> None],
    POSIX: SIGKILL cannot be caught or ignored) and Cmd.Wait returns once the
@@ -25,6 +26,14 @@ Theorem c35_returns_and_dead : forall d p e, p_kill p <> None ->
     /\ earliest_exit p (o_stdin_at o) (o_term_at o) (o_kill_at o) = Some (o_exit o)
     /\ o_exit o <= o_ret o.
 Proof. exact close_returns_dead. Qed.
+
+(* [p] ranges over processes with and without a lingering descendant that
+   inherited standard error ([p_linger]); explicitly, that parameter is
+   irrelevant: the wrapper does not wait for the end of the error stream, so
+   the run is the same whether or not such a descendant exists. *)
+Theorem c35_lingering_descendant_irrelevant : forall d p e b,
+  close_run d (with_linger b p) e = close_run d p e.
+Proof. exact close_linger_irrelevant. Qed.
 
 (* ... within the sum of the waits (termination delay + 1 s + 1 s, each as
    long as its timer really took) plus the time the process takes to die of
@@ -56,21 +65,22 @@ Proof. exact model_passes_C35. Qed.
    an agent that is slow on stdin but honours SIGTERM goes at the third stage. *)
 Example c35_never_is_killed :
   option_map (fun o => (o_stage o, o_ret o, o_kill_at o))
-    (close_run 300 {| p_self := None; p_stdin := None; p_term := None; p_kill := Some 5 |} env0)
+    (close_run 300 {| p_self := None; p_stdin := None; p_term := None; p_kill := Some 5; p_linger := true |} env0)
   = Some (StKill, 2305, Some 2300).
 Proof. vm_compute. reflexivity. Qed.
 
 Example c35_sigkill_needed :
-  close_run 300 {| p_self := None; p_stdin := None; p_term := None; p_kill := None |} env0 = None.
+  close_run 300 {| p_self := None; p_stdin := None; p_term := None; p_kill := None; p_linger := false |} env0 = None.
 Proof. vm_compute. reflexivity. Qed.
 
 Example c35_term_stage :
   option_map (fun o => (o_stage o, o_ret o))
-    (close_run 0 {| p_self := None; p_stdin := Some 1500; p_term := Some 100; p_kill := Some 0 |} env0)
+    (close_run 0 {| p_self := None; p_stdin := Some 1500; p_term := Some 100; p_kill := Some 0; p_linger := true |} env0)
   = Some (StTerm, 1100).
 Proof. vm_compute. reflexivity. Qed.
 
 Print Assumptions c35_returns_and_dead.
+Print Assumptions c35_lingering_descendant_irrelevant.
 Print Assumptions c35_bound.
 Print Assumptions c35_no_force_on_cooperative.
 Print Assumptions c35_check_sound.
